@@ -18,7 +18,7 @@ open GilVerif.Geom GilVerif.Gen.C03
 
 /-- how the x-iterator underneath a view moves -/
 structure Kind where
-  bit : Bool      -- bit_aligned_pixel_iterator at the bottom (bit_range arithmetic, `int` narrowing)
+  bit : Bool      -- bit_aligned_pixel_iterator at the bottom (bit_range arithmetic)
   xstep : Bool    -- the x-iterator is a memory_based_step_iterator (dynamic x step)
   pixbits : Int   -- bit_size of the pixel (bit kinds only)
   virt : Bool     -- virtual view: x / y iterators are position_iterators (no step adaptor, no memory)
@@ -163,26 +163,18 @@ def sumMoves : List Move → Int × Int
 /-- `a - b` for step iterators / pointers: `-(a.distance_to(b))`, distance_to = memunit_distance / step -/
 def stepSub (k : Kind) (step a b : Int) : Int := -(step_difference (memDistance k a b) step)
 
-/-- The order in which the *x-iterator type* compares two of its positions.  A
-    `memory_based_step_iterator` compares `step()>0 ? base<base : base>base`, i.e. it reverses the
-    order of its base when its own step is not positive; pointers, planar and bit iterators compare
-    addresses. -/
-def xKey (k : Kind) (xs p : Int) : Int := if k.xstep && decide (xs ≤ 0) then -p else p
-
-/-- `a < b`, `a > b`, `a <= b`, `a >= b` on x-iterators (`isY = false`, step `xs`) or y-iterators
-    (`isY = true`, step `ys`) at positions `a`, `b`.  The y-iterator is a step iterator *over the
-    x-iterator*: the generated sign-keyed operator is applied to bases that are compared in the
-    x-iterator's own order (`xKey`) -- this nesting is what the code does, and it makes the y order
-    depend on the sign of the x step (known finding C03-nested-step-iterator-order).
-    Virtual views use position_iterators: iterator_facade's distance-based operators. -/
-def itCmp (k : Kind) (isY : Bool) (xs step a b : Int) : List Int :=
+/-- `a < b`, `a > b`, `a <= b`, `a >= b` on x-iterators (`isY = false`) or y-iterators (`isY = true`)
+    with memory-unit step `step`, at positions `a`, `b`.  Step iterators (every y-iterator; the
+    x-iterator of a dynamic-step view) use the generated sign-keyed operators of
+    `step_iterator_adaptor`, which compare the memory positions of their bases
+    (`memunit_distance`, so a step iterator nested over another one compares correctly);
+    pointers, planar and bit iterators compare addresses; virtual views use position_iterators
+    (iterator_facade's distance-based operators). -/
+def itCmp (k : Kind) (isY : Bool) (step a b : Int) : List Int :=
   if k.virt then
     let d := pos_distance a b step          -- a.distance_to(b)
     [if d > 0 then 1 else 0, if d < 0 then 1 else 0, if d ≥ 0 then 1 else 0, if d ≤ 0 then 1 else 0]
-  else if isY then
-    let a' := xKey k xs a; let b' := xKey k xs b
-    [step_lt step a' b', step_gt step a' b', step_le step a' b', step_ge step a' b']
-  else if k.xstep then [step_lt step a b, step_gt step a b, step_le step a b, step_ge step a b]
+  else if isY || k.xstep then [step_lt step a b, step_gt step a b, step_le step a b, step_ge step a b]
   else [if a < b then 1 else 0, if a > b then 1 else 0, if a ≤ b then 1 else 0, if a ≥ b then 1 else 0]
 
 /-! ### Spec: what the property demands of the *observations* (used by `judge`) -/
